@@ -82,6 +82,12 @@ def run(ctx):
     # digests must agree across the builds of one program set
     groups = {}
     for j in js:
+        if j.stats.get("fixpoint_reached") == 0:
+            # a breadth-first run ended by its time budget (slow build / loaded machine) saw a prefix of the state space:
+            # no violation was seen in what it covered, but its digest is not comparable with the complete runs
+            ctx.capped = True
+            ctx.cov.setdefault("runs_ended_by_their_time_budget", []).append(j.name)
+            continue
         base = j.name.rsplit("_", 3)[0] if j.name.startswith("hist") else j.name.split("_")[0]
         for gname, gv in j.stats.get("groups", {}).items():
             groups.setdefault((base, gname), {})[j.name] = gv.get("digest")
